@@ -109,21 +109,44 @@ func VerifC12_Encode5() { verifC12Encode(5) }
 func VerifC12_Encode6() { verifC12Encode(6) }
 func VerifC12_Encode7() { verifC12Encode(7) }
 func VerifC12_Encode8() { verifC12Encode(8) }
+func VerifC12_Encode9() { verifC12Encode(9) }
+func VerifC12_Encode10() { verifC12Encode(10) }
+func VerifC12_Encode11() { verifC12Encode(11) }
+func VerifC12_Encode12() { verifC12Encode(12) }
+func VerifC12_Encode13() { verifC12Encode(13) }
+func VerifC12_Encode14() { verifC12Encode(14) }
 func VerifC12_Decode0() { verifC12Decode(0) }
 func VerifC12_Decode1() { verifC12Decode(1) }
 func VerifC12_Decode2() { verifC12Decode(2) }
 func VerifC12_Decode3() { verifC12Decode(3) }
 func VerifC12_Decode4() { verifC12Decode(4) }
-
-func VerifC12_T_Encode9()  { verifC12Encode(9) }
-func VerifC12_T_Encode10() { verifC12Encode(10) }
-func VerifC12_T_Encode11() { verifC12Encode(11) }
-func VerifC12_T_Encode12() { verifC12Encode(12) }
-func VerifC12_T_Encode13() { verifC12Encode(13) }
-func VerifC12_T_Encode14() { verifC12Encode(14) }
+func VerifC12_Decode5() { verifC12Decode(5) }
+func VerifC12_Decode6() { verifC12Decode(6) }
+func VerifC12_Decode7() { verifC12Decode(7) }
+func VerifC12_Decode8() { verifC12Decode(8) }
+func VerifC12_Decode9() { verifC12Decode(9) }
+func VerifC12_Decode10() { verifC12Decode(10) }
 func VerifC12_T_Encode15() { verifC12Encode(15) }
 func VerifC12_T_Encode16() { verifC12Encode(16) }
-func VerifC12_T_Decode5()  { verifC12Decode(5) }
-func VerifC12_T_Decode6()  { verifC12Decode(6) }
-func VerifC12_T_Decode7()  { verifC12Decode(7) }
-func VerifC12_T_Decode8()  { verifC12Decode(8) }
+func VerifC12_T_Encode17() { verifC12Encode(17) }
+func VerifC12_T_Encode18() { verifC12Encode(18) }
+func VerifC12_T_Encode19() { verifC12Encode(19) }
+func VerifC12_T_Encode20() { verifC12Encode(20) }
+func VerifC12_T_Encode21() { verifC12Encode(21) }
+func VerifC12_T_Encode22() { verifC12Encode(22) }
+func VerifC12_T_Encode23() { verifC12Encode(23) }
+func VerifC12_T_Encode24() { verifC12Encode(24) }
+func VerifC12_T_Encode25() { verifC12Encode(25) }
+func VerifC12_T_Encode26() { verifC12Encode(26) }
+func VerifC12_T_Encode27() { verifC12Encode(27) }
+func VerifC12_T_Encode28() { verifC12Encode(28) }
+func VerifC12_T_Encode29() { verifC12Encode(29) }
+func VerifC12_T_Encode30() { verifC12Encode(30) }
+func VerifC12_T_Encode31() { verifC12Encode(31) }
+func VerifC12_T_Encode32() { verifC12Encode(32) }
+func VerifC12_T_Decode11() { verifC12Decode(11) }
+func VerifC12_T_Decode12() { verifC12Decode(12) }
+func VerifC12_T_Decode13() { verifC12Decode(13) }
+func VerifC12_T_Decode14() { verifC12Decode(14) }
+func VerifC12_T_Decode15() { verifC12Decode(15) }
+func VerifC12_T_Decode16() { verifC12Decode(16) }
